@@ -21,8 +21,13 @@ package main
 //           the model.
 
 import (
+	"bufio"
+	"encoding/json"
 	"fmt"
 	"go/types"
+	"os"
+	"os/exec"
+	"path/filepath"
 	"sort"
 	"strings"
 
@@ -319,4 +324,242 @@ func (e *Engine) readsObligations() []*Obligation {
 			"the model builder calls no hidden-channel or optional-separator accessor", len(bad) == 0, strings.Join(bad, "; ")))
 	}
 	return out
+}
+
+// ---------------------------------------------------------------- bounded stand-in: pairs of spellings
+//
+// The relational conjuncts of C08 (two texts that mean the same compile to byte-identical outputs) are
+// not expressible as one-run contracts.  A labelled BOUNDED stand-in covers them on an enumerated set of
+// text pairs: each listed meaning-preserving rewrite, applied in each syntactic context where it can
+// occur, on a base program that uses every field kind.  The real ParseFile and the six real generators
+// run on both texts (go test -overlay, subprocess); the pair fails if one side does not compile cleanly
+// or the file sets differ.  Obligations are named BOUNDED:C08:pair:<hash of both texts>.  The same pairs
+// serve as the replay corpus of the deductive C08 obligations.
+
+type spellPair struct {
+	Label, A, B string
+}
+
+func spellProg(opts, meta, fields string) string {
+	return opts + meta + "root packet Msg {\n" + fields + "}\npacket A { u8 a, }\npacket B { u16 b, string t, }\n"
+}
+
+func (e *Engine) spellPairs() []spellPair {
+	var out []spellPair
+	add := func(label, a, b string) { out = append(out, spellPair{label, a, b}) }
+	names, classes := e.aliasClasses()
+	unsigned := map[string]bool{"UINT8": true, "UINT16": true, "UINT32": true, "UINT64": true}
+	integer := map[string]bool{"UINT8": true, "UINT16": true, "UINT32": true, "UINT64": true, "INT8": true, "INT16": true, "INT32": true, "INT64": true}
+	for _, tok := range names {
+		sps := classes[tok]
+		for i := 1; i < len(sps); i++ {
+			a, b := sps[0], sps[i]
+			ctxs := map[string]func(string) string{
+				"field":    func(t string) string { return spellProg("", "", t+" x,\n") },
+				"repeat":   func(t string) string { return spellProg("", "", "repeat "+t+" xs,\n") },
+				"metadata": func(t string) string { return spellProg("", "MetaData M { "+t+" Code `d`, }\n", "Code c,\nrepeat Code cs,\n") },
+				"inline":   func(t string) string { return spellProg("", "", "In { "+t+" q, repeat "+t+" qs, },\n") },
+			}
+			if unsigned[tok] {
+				ctxs["length"] = func(t string) string {
+					return spellProg("", "", t+" Len @lengthOf(Body),\nu8 Kind,\nmatch Kind as Body { 1 : A, 2 : B, },\n")
+				}
+				ctxs["length-prefixed"] = func(t string) string {
+					return spellProg("", "", "@lengthOf(Body) "+t+" Len,\nu8 Kind,\nmatch Kind as Body { 1 : A, 2 : B, },\n")
+				}
+				ctxs["option"] = func(t string) string {
+					return spellProg("options { StringPrefixLenType = "+t+"; ArrayPrefixLenType = "+t+"; }\n", "", "string s,\nrepeat u8 xs,\nrepeat string ss,\n")
+				}
+				ctxs["matchkey"] = func(t string) string {
+					return spellProg("", "", t+" Kind,\nmatch Kind as Body { 1 : A, [2, 3] : B, },\n")
+				}
+			}
+			if integer[tok] {
+				ctxs["checksum"] = func(t string) string { return spellProg("", "", "u8 h,\n"+t+" Sum @calculatedFrom(\"crc\"),\n") }
+				ctxs["checksum-prefixed"] = func(t string) string {
+					return spellProg("", "", "u8 h,\n@calculatedFrom(\"crc\") "+t+" Sum,\n")
+				}
+			}
+			var ks []string
+			for k := range ctxs {
+				ks = append(ks, k)
+			}
+			sort.Strings(ks)
+			for _, k := range ks {
+				add("alias "+a+"/"+b+" in "+k, ctxs[k](a), ctxs[k](b))
+			}
+		}
+	}
+	body := "u16 Len @lengthOf(Body),\nu8 Kind,\nmatch Kind as Body { 1 : A, 2 : B, },\n"
+	// string / char[]
+	add("string vs char[]", spellProg("", "", "string s,\nrepeat string ss,\n"), spellProg("", "", "char[] s,\nrepeat char[] ss,\n"))
+	add("string vs char[] in MetaData", spellProg("", "MetaData M { string T, }\n", "T t,\n"), spellProg("", "MetaData M { char[] T, }\n", "T t,\n"))
+	// zchar[n] vs explicit NUL right padding
+	add("zchar vs @rightPad NUL", spellProg("", "", "zchar[6] z,\n"), spellProg("", "", "@rightPad('\\x00') char[6] z,\n"))
+	add("repeat zchar vs @rightPad NUL", spellProg("", "", "repeat zchar[6] zs,\n"), spellProg("", "", "@rightPad('\\x00') repeat char[6] zs,\n"))
+	// default padding vs none
+	add("default padding explicit", spellProg("", "", "@rightPad(' ') char[4] f,\n"), spellProg("", "", "char[4] f,\n"))
+	add("empty padding attribute", spellProg("", "", "@rightPad() char[4] f,\n"), spellProg("", "", "char[4] f,\n"))
+	add("default padding under options", spellProg("options { FixedStringPadChar = '0'; FixedStringPadFromLeft = true; }\n", "", "@leftPad('0') char[4] f,\n"),
+		spellProg("options { FixedStringPadChar = '0'; FixedStringPadFromLeft = true; }\n", "", "char[4] f,\n"))
+	// inline vs prefixed attribute placement
+	add("lengthOf inline vs prefixed", spellProg("", "", body), spellProg("", "", "@lengthOf(Body) u16 Len,\nu8 Kind,\nmatch Kind as Body { 1 : A, 2 : B, },\n"))
+	add("calculatedFrom inline vs prefixed", spellProg("", "", "u8 h,\nu32 Sum @calculatedFrom(\"crc32\"),\n"), spellProg("", "", "u8 h,\n@calculatedFrom(\"crc32\") u32 Sum,\n"))
+	// explicit default options vs none
+	fieldsAll := "string s,\nrepeat u16 xs,\nrepeat string ss,\nchar[4] f,\nu32 n,\n" + body
+	for _, o := range []string{"LittleEndian = false;", "StringPrefixLenType = u16;", "ArrayPrefixLenType = u16;", "FixedStringPadFromLeft = false;", "FixedStringPadChar = ' ';",
+		"LittleEndian = false; StringPrefixLenType = u16; ArrayPrefixLenType = u16; FixedStringPadFromLeft = false; FixedStringPadChar = ' ';"} {
+		add("explicit default option "+o, spellProg("options { "+o+" }\n", "", fieldsAll), spellProg("", "", fieldsAll))
+	}
+	add("empty options block", spellProg("options { }\n", "", fieldsAll), spellProg("", "", fieldsAll))
+	add("pad side given, pad char default", spellProg("options { FixedStringPadFromLeft = true; FixedStringPadChar = ' '; }\n", "", fieldsAll), spellProg("options { FixedStringPadFromLeft = true; }\n", "", fieldsAll))
+	// key list vs expanded pairs
+	add("key list vs pairs", spellProg("", "", "u8 Kind,\nmatch Kind as Body { [1, 2] : A, 3 : B, },\n"), spellProg("", "", "u8 Kind,\nmatch Kind as Body { 1 : A, 2 : A, 3 : B, },\n"))
+	add("string key list vs pairs", spellProg("", "", "string Kind,\nmatch Kind as Body { [\"a\", \"b\"] : A, \"c\" : B, },\n"), spellProg("", "", "string Kind,\nmatch Kind as Body { \"a\" : A, \"b\" : A, \"c\" : B, },\n"))
+	add("one-element key list", spellProg("", "", "u8 Kind,\nmatch Kind as Body { [1] : A, 3 : B, },\n"), spellProg("", "", "u8 Kind,\nmatch Kind as Body { 1 : A, 3 : B, },\n"))
+	// MetaData-typed field vs inlined type
+	add("MetaData vs inlined", spellProg("", "MetaData M { u16 Code `c`, char[8] Name, string Text, zchar[4] Z, }\n", "Code c,\nName n,\nText t,\nZ z,\nrepeat Code cs,\nrepeat Name ns,\n"),
+		spellProg("", "", "u16 c,\nchar[8] n,\nstring t,\nzchar[4] z,\nrepeat u16 cs,\nrepeat char[8] ns,\n"))
+	add("MetaData field named after its type", spellProg("", "MetaData M { u16 Code, }\n", "Code,\n"), spellProg("", "", "u16 Code,\n"))
+	add("MetaData alias entry", spellProg("", "MetaData M { u16 Code, Code Other, }\n", "Other o,\n"), spellProg("", "", "u16 o,\n"))
+	// separators, whitespace, comments, doc strings
+	add("option separators", spellProg("options { LittleEndian = true; StringPrefixLenType = u8; }\n", "", fieldsAll), spellProg("options { LittleEndian = true StringPrefixLenType = u8 }\n", "", fieldsAll))
+	add("match pair separators", spellProg("", "", "u8 Kind,\nmatch Kind as Body { 1 : A, 2 : B, },\n"), spellProg("", "", "u8 Kind,\nmatch Kind as Body { 1 : A 2 : B },\n"))
+	full := spellProg("options { LittleEndian = true; }\n", "MetaData M { u16 Code, }\n", "Code c,\nIn { u8 q, },\n"+fieldsAll)
+	add("whitespace", full, strings.Join(strings.Fields(strings.ReplaceAll(full, "\n", " ")), " "))
+	add("whitespace tabs and blank lines", full, strings.ReplaceAll(full, "\n", "\n\n\t"))
+	add("comments", full, "// head\n"+strings.ReplaceAll(full, ",\n", ", // c\n// own line\n")+"// tail\n")
+	add("doc strings", spellProg("", "MetaData M { u16 Code `the code`, }\n", "Code c `a code`,\nu8 x `an x`,\nA obj `an object`,\nu16 Len @lengthOf(Body) `length`,\nu8 Kind `kind`,\nmatch Kind as Body { 1 : A, },\nu32 Sum @calculatedFrom(\"crc\") `sum`,\n"),
+		spellProg("", "MetaData M { u16 Code, }\n", "Code c,\nu8 x,\nA obj,\nu16 Len @lengthOf(Body),\nu8 Kind,\nmatch Kind as Body { 1 : A, },\nu32 Sum @calculatedFrom(\"crc\"),\n"))
+	add("multi-line doc string", spellProg("", "", "u8 x `line one\nline two`,\n"), spellProg("", "", "u8 x,\n"))
+	// conversely: an attribute applies only to the field it is written on
+	for _, ty := range []string{"char[8]", "zchar[8]"} {
+		add("attribute locality "+ty+" first", spellProg("", "MetaData M { "+ty+" Code, }\n", "@leftPad('0') Code a,\nCode b,\n"), spellProg("", "", "@leftPad('0') "+ty+" a,\n"+ty+" b,\n"))
+		add("attribute locality "+ty+" second", spellProg("", "MetaData M { "+ty+" Code, }\n", "Code a,\n@leftPad('0') Code b,\nCode c,\n"), spellProg("", "", ty+" a,\n@leftPad('0') "+ty+" b,\n"+ty+" c,\n"))
+		add("attribute locality "+ty+" across packets", spellProg("", "MetaData M { "+ty+" Code, }\n", "@rightPad('0') Code a,\n")+"packet C { Code k, }\n", spellProg("", "", "@rightPad('0') "+ty+" a,\n")+"packet C { "+ty+" k, }\n")
+	}
+	add("tag attribute locality", spellProg("", "", "@tag(7) u8 x,\nu8 y,\n"), spellProg("", "", "@tag(7)\nu8 x,\nu8 y,\n"))
+	return out
+}
+
+const pairsHarness = `
+func TestGoverifPairs(t *testing.T) {
+	dir := os.Getenv("GOVERIF_PAIRS_DIR")
+	if dir == "" {
+		t.Skip()
+	}
+	files, _ := filepath.Glob(filepath.Join(dir, "*.a.dsl"))
+	sort.Strings(files)
+	out, _ := os.Create(filepath.Join(dir, "pairs.jsonl"))
+	defer out.Close()
+	null, _ := os.OpenFile(os.DevNull, os.O_WRONLY, 0)
+	os.Stdout = null
+	emit := func(f, class, note string) {
+		b, _ := json.Marshal(goverifStandin{filepath.Base(f), class, note})
+		out.Write(append(b, '\n'))
+	}
+	for _, fa := range files {
+		a, _ := os.ReadFile(fa)
+		b, _ := os.ReadFile(strings.TrimSuffix(fa, ".a.dsl") + ".b.dsl")
+		xa, oka := goverifCompile(dir, string(a))
+		xb, okb := goverifCompile(dir, string(b))
+		switch {
+		case !oka && !okb:
+			emit(fa, "pair", "neither text compiles without diagnostics")
+		case !oka:
+			emit(fa, "pair", "the first text does not compile without diagnostics, the second does")
+		case !okb:
+			emit(fa, "pair", "the second text does not compile without diagnostics, the first does")
+		case len(xa) != len(xb):
+			emit(fa, "pair", fmt.Sprintf("%d files from the first text, %d from the second", len(xa), len(xb)))
+		default:
+			ks := make([]string, 0, len(xa))
+			for k := range xa {
+				ks = append(ks, k)
+			}
+			sort.Strings(ks)
+			for _, k := range ks {
+				if xb[k] != xa[k] {
+					la, lb := strings.Split(xa[k], "\n"), strings.Split(xb[k], "\n")
+					d := ""
+					for i := 0; i < len(la) && i < len(lb); i++ {
+						if la[i] != lb[i] {
+							d = fmt.Sprintf(" line %d: %q vs %q", i+1, la[i], lb[i])
+							break
+						}
+					}
+					emit(fa, "pair", "generated file "+k+" differs:"+d)
+					break
+				}
+			}
+		}
+		emit(fa, "done", "")
+	}
+}
+`
+
+type pairOutcome struct {
+	Pair spellPair
+	Note string
+}
+
+var pairsRan bool
+var pairsFail map[string]pairOutcome // obligation name -> outcome
+var pairsCount, pairsDone int
+var pairsErr error
+
+func (e *Engine) runSpellPairs() {
+	if pairsRan {
+		return
+	}
+	pairsRan = true
+	pairsFail = map[string]pairOutcome{}
+	dir, err := os.MkdirTemp("/var/tmp", "goverif-pairs-")
+	if err != nil {
+		pairsErr = err
+		return
+	}
+	defer os.RemoveAll(dir)
+	pairs := e.spellPairs()
+	pairsCount = len(pairs)
+	byFile := map[string]spellPair{}
+	for i, p := range pairs {
+		n := fmt.Sprintf("p%04d", i)
+		byFile[n+".a.dsl"] = p
+		os.WriteFile(filepath.Join(dir, n+".a.dsl"), []byte(p.A), 0644)
+		os.WriteFile(filepath.Join(dir, n+".b.dsl"), []byte(p.B), 0644)
+	}
+	h := filepath.Join(dir, "zz_goverif_standin_test.go")
+	os.WriteFile(h, []byte(standinHarness+pairsHarness), 0644)
+	ov := map[string]interface{}{"Replace": map[string]string{filepath.Join(repoRoot, "internal/parser/zz_goverif_standin_test.go"): h}}
+	ovb, _ := json.Marshal(ov)
+	ovf := filepath.Join(dir, "overlay.json")
+	os.WriteFile(ovf, ovb, 0644)
+	cmd := exec.Command("go", "test", "-overlay", ovf, "-vet=off", "-count=1", "-timeout", "300s", "-run", "^TestGoverifPairs$", "./internal/parser/")
+	cmd.Dir = repoRoot
+	cmd.Env = append(os.Environ(), "GOVERIF_PAIRS_DIR="+dir, "GOFLAGS=-mod=mod", "GOPROXY=off")
+	outb, err := cmd.CombinedOutput()
+	f, ferr := os.Open(filepath.Join(dir, "pairs.jsonl"))
+	if ferr != nil {
+		pairsErr = fmt.Errorf("pairs harness did not run: %v\n%s", err, truncate(string(outb), 2000))
+		return
+	}
+	defer f.Close()
+	sc := bufio.NewScanner(f)
+	sc.Buffer(make([]byte, 1<<20), 1<<24)
+	for sc.Scan() {
+		var o standinOutcome
+		if json.Unmarshal(sc.Bytes(), &o) != nil {
+			continue
+		}
+		if o.Class == "done" {
+			pairsDone++
+			continue
+		}
+		p := byFile[o.File]
+		pairsFail[fmt.Sprintf("BOUNDED:C08:pair:%s", inputID(p.A+"\x00"+p.B))] = pairOutcome{p, o.Note}
+	}
+	if pairsDone != pairsCount {
+		pairsErr = fmt.Errorf("pairs harness stopped after %d of %d pairs: %v\n%s", pairsDone, pairsCount, err, truncate(string(outb), 2000))
+	}
 }
